@@ -17,6 +17,8 @@
 package tdxsynctest
 
 import (
+	neturl "net/url"
+	"context"
 	"bytes"
 	"errors"
 	"fmt"
@@ -106,6 +108,13 @@ func makeResp(idx int) (map[string][]string, []byte) {
 		"sgx-pck-crl-issuer-chain": {},
 	}
 	b := []byte(fmt.Sprintf("{\"call\":%d,\"pad\":\"\x00\xff%s\"}", idx, strings.Repeat("z", idx%5)))
+	// a success is a success whatever its body: also an empty one (204-style answers, empty CRL bodies …)
+	switch idx % 4 {
+	case 2:
+		b = []byte{}
+	case 3:
+		b = nil
+	}
 	return h, b
 }
 
@@ -145,7 +154,15 @@ func (s *scripted) Get(url string) (map[string][]string, []byte, error) {
 	rec.ok = e.ok
 	if !e.ok {
 		// a failing getter may still hand out junk; it must never surface
-		return map[string][]string{"X-Failed": {strconv.Itoa(n)}}, []byte("failed-" + strconv.Itoa(n)), errors.New("scripted failure")
+		// failures of every class an HTTP client produces: plain, timeout-class (net.Error with Timeout() true), wrapped deadline
+		var ferr error = errors.New("scripted failure")
+		switch n % 3 {
+		case 1:
+			ferr = timeoutErr{}
+		case 2:
+			ferr = &neturl.Error{Op: "Get", URL: url, Err: context.DeadlineExceeded}
+		}
+		return map[string][]string{"X-Failed": {strconv.Itoa(n)}}, []byte("failed-" + strconv.Itoa(n)), ferr
 	}
 	rec.hdr, rec.body = makeResp(n)
 	h, b := makeResp(n)
@@ -225,7 +242,7 @@ func observed(res *result) string {
 	}
 	k := "?"
 	for i, c := range res.calls {
-		if c.ok && reflect.DeepEqual(res.hdr, c.hdr) && bytes.Equal(res.body, c.body) && res.body != nil {
+		if c.ok && reflect.DeepEqual(res.hdr, c.hdr) && bytes.Equal(res.body, c.body) && (res.body == nil) == (c.body == nil) && res.hdr != nil {
 			k = strconv.Itoa(i)
 			break
 		}
@@ -572,3 +589,10 @@ func (e *emitter) defaults() {
 	}
 	e.r.Emit("# C20.defaults", obs, fail, "defaults", true, "defaults")
 }
+
+
+type timeoutErr struct{}
+
+func (timeoutErr) Error() string   { return "scripted failure: i/o timeout" }
+func (timeoutErr) Timeout() bool   { return true }
+func (timeoutErr) Temporary() bool { return true }
